@@ -31,8 +31,15 @@ are three sufficient conditions under which threads cannot disturb each other th
   H12 a temporary patch of a shared object (save / set / restore) runs under a lock.
 A failed condition is `unknown` until the native replayer exhibits a schedule: two threads under a controlled scheduler
 (sys.settrace), one preemption at every line of the functions that touch the state (H9, H10), or two context switches at every
-pair of lines of the patching context manager (H12).  On /repo HEAD H9a, H9b and H12 fail and are reproduced: recorded in
-known_findings.json with proposed_fixes/C15_1..3.diff.
+pair of lines of the patching context manager (H12).  H9a and H9b were repaired in /repo (fix: commits); H12 still fails on
+/repo HEAD and is reproduced: recorded in known_findings.json with proposed_fixes/C15_3.diff.
+
+**Robustness (round 3).**  Obligations follow the data flow, not the text: stores, guards and foreign mutations are followed into
+private helpers (a helper's store is "after a miss" if every call site is; a helper's setattr acts for the function that names the
+patched object), bulk publications are read through comprehensions / staging dicts / helper returns, keys and dependencies of a
+helper are lifted to its call sites, obligation ids name roles and indices instead of private names, and whatever is decided by an
+over-approximation or by recognising a shape is `unknown` when it fails -- the native replayer (histories, damaged archives,
+package-state snapshots, schedules) decides.  See ENGINE.md "C15 round 3".
 """
 import ast
 
@@ -144,13 +151,25 @@ EXECUTOR = C15Executor
 def patch_target_shapes(repo=None):
     """The (module alias, attribute) lists that _get_pypdf_char_map_patcher can return, read from its AST."""
     m = loader.module(PDF, repo)
-    f = m.functions.get("_get_pypdf_char_map_patcher")
+    prov = discover(repo).get("char-map-targets")
+    f = m.functions.get(prov[1]) if prov else None
     shapes = []
     if f is None:
         return None
     for n in ast.walk(f):
         if isinstance(n, ast.Return) and n.value is not None:
             v = n.value
+            if isinstance(v, ast.Tuple) and len(v.elts) == 2 and isinstance(v.elts[0], ast.Name):
+                # targets = [(mod, "name"), ...]; return targets, make_wrapper   (bound once, never mutated)
+                nm = v.elts[0].id
+                binds = [a for a in ast.walk(f) if isinstance(a, (ast.Assign, ast.AnnAssign)) and any(isinstance(t, ast.Name) and t.id == nm
+                         for t in (a.targets if isinstance(a, ast.Assign) else [a.target]))]
+                touched = [c for c in ast.walk(f) if isinstance(c, ast.Call) and isinstance(c.func, ast.Attribute) and isinstance(c.func.value, ast.Name)
+                           and c.func.value.id == nm]
+                cands = [a.value for a in binds if a.lineno < n.lineno and isinstance(a.value, ast.List)]
+                if cands and not touched:
+                    near = max(cands, key=lambda e: e.lineno)
+                    v = ast.Tuple(elts=[near, v.elts[1]], ctx=ast.Load())
             if isinstance(v, ast.Tuple) and len(v.elts) == 2 and isinstance(v.elts[0], ast.List):
                 items = []
                 for e in v.elts[0].elts:
@@ -166,9 +185,16 @@ def patch_target_shapes(repo=None):
     return shapes
 
 
+ROLE_OF = {}          # real target -> role name used in obligation ids (stable under renames of private functions)
+
+
 def contracts(reg):
     out = []
     shapes = patch_target_shapes() or []
+    roles = discover()
+    prov = roles.get("char-map-targets") or (PDF, "_get_pypdf_char_map_patcher")
+    cmk = roles.get("char-map-patcher") or (PDF, "_patched_build_char_map")
+    ROLE_OF[f"{cmk[0]}::{cmk[1]}"] = "<char-map-patcher>"
 
     def patcher_result(ex, st, ctx):
         return VUnk("unused")
@@ -190,14 +216,14 @@ def contracts(reg):
         return outs
 
     reg.ext_models["C15.make_wrapper"] = lambda ex, st, args, kwargs, node: [(st, VExt("Callable"))]
-    reg.fn[f"{PDF}::_get_pypdf_char_map_patcher"] = FnContract(
-        target=f"{PDF}::_get_pypdf_char_map_patcher", assumed=True, inline=False,
+    reg.fn[f"{PDF}::{prov[1]}"] = FnContract(
+        target=f"{PDF}::{prov[1]}", assumed=True, inline=False,
         note="ASSUMED shape, cross-checked against its AST by obligation H1.shape: returns (literal list of (module, name) pairs, "
              "wrapper factory that only defines a closure) or raises AttributeError")
     # route calls of the real function to the model above
     def call_patcher(ex, st, args, kwargs, node):
         return m_patcher(ex, st, args, kwargs, node)
-    reg.module_consts[(PDF, "_get_pypdf_char_map_patcher")] = VFunc("ext", "C15.patcher")
+    reg.module_consts[(PDF, prov[1])] = VFunc("ext", "C15.patcher")
     reg.ext_models["C15.patcher"] = call_patcher
 
     def restored(c):
@@ -208,7 +234,7 @@ def contracts(reg):
         return z3.BoolVal(ok)
 
     out.append(FnContract(
-        target=f"{PDF}::_patched_build_char_map", params=[], generator=True,
+        target=f"{cmk[0]}::{cmk[1]}", params=[], generator=True,
         ensures=[("every-patched-attribute-restored-on-normal-exit", restored)],
         raises=[Raises("BaseException", sub=True, when=lambda c: restored(c) if c.st is not None else z3.BoolVal(True),
                        label="exception thrown into the with-body / GeneratorExit: attributes restored before it propagates")],
@@ -226,7 +252,10 @@ def cache_contracts(reg):
       * a miss stores under the key it looked up."""
     from pyvc.verify import p_unk
     out = []
-    reg.module_consts[(AESF, "_ROUND_KEY_CACHE")] = VExt("C15Cache")
+    roles = discover()
+    acc = roles.get("round-key-accessor") or (AESF, "_get_round_keys")
+    ROLE_OF[f"{acc[0]}::{acc[1]}"] = "<round-key-accessor>"
+    reg.module_consts[(AESF, roles.get("round-key-cache") or "_ROUND_KEY_CACHE")] = VExt("C15Cache")
 
     def m_get(ex, st, obj, args, kwargs, node):
         miss = st.fork()
@@ -252,7 +281,7 @@ def cache_contracts(reg):
         return [(st, ex.new_list(st, [VUnk(f"rk[{i}]") for i in range(2)]))]       # a fresh list of round keys
 
     reg.ext_models["C15.expand_key"] = m_expand
-    reg.module_consts[(AESF, "_expand_key")] = VFunc("ext", "C15.expand_key")
+    reg.module_consts[(AESF, roles.get("key-expansion") or "_expand_key")] = VFunc("ext", "C15.expand_key")
 
     def stored_under_looked_up_key(c):
         stores = c.st.ghost.get("cache_stores", ())
@@ -266,8 +295,10 @@ def cache_contracts(reg):
             c.note = "mutates an object the cache holds / has handed out at " + ", ".join(m)
         return z3.BoolVal(not m)
 
+    accn = loader.module(acc[0]).functions.get(acc[1])
+    acc_params = [a.arg for a in (accn.args.posonlyargs + accn.args.args)] if accn is not None else ["key"]
     out.append(FnContract(
-        target=f"{AESF}::_get_round_keys", params=[("key", p_unk())],
+        target=f"{acc[0]}::{acc[1]}", params=[(p_, p_unk()) for p_ in acc_params],
         ensures=[("objects-held-by-the-cache-are-not-mutated", not_mutated),
                  ("a-miss-stores-under-the-key-it-looked-up", stored_under_looked_up_key)],
         raises=[Raises("ValueError", when=not_mutated, label="only the key-length check of _expand_key, and nothing published was mutated before")],
@@ -338,56 +369,141 @@ SETTERS = {
 GETTER_WITHOUT_ARGS = {"csv.field_size_limit", "locale.setlocale"}
 
 
+_ANALYSES = {}
+
+
+def analysis(repo=None):
+    key = repo or loader.REPO
+    if key not in _ANALYSES:
+        files = [f for f in loader.all_package_files(repo) if "/sharepoint_io/" not in f]
+        _ANALYSES[key] = O.Analysis(repo, files)
+    return _ANALYSES[key]
+
+
+def _is_import_binding(fnode, name):
+    for n in ast.walk(fnode):
+        if isinstance(n, (ast.Import, ast.ImportFrom)):
+            for a in n.names:
+                if (a.asname or a.name.split(".")[0]) == name:
+                    return True
+    return False
+
+
+def registry_names(an):
+    """Names of the functions that tables of strings refer to (the router's extractor registry): extraction entry points."""
+    fn_names = {f.node.name for f in an.fns.values()}
+    out = set()
+    for rel, m in an.mods.items():
+        for n in ast.walk(m.tree):
+            if isinstance(n, ast.Constant) and isinstance(n.value, str) and n.value in fn_names and n.value.startswith("read_"):
+                out.add(n.value)
+    return out
+
+
+def lazy_name(an, afn, nm):
+    """`global nm` in afn: exactly one rebinding statement in the whole module, guarded by a test of nm itself (is None / not nm),
+    the value computed from nothing call-specific (no parameter, no written module state)."""
+    m = an.mods[afn.rel]
+    sites = []
+    for q, f in m.functions.items():
+        g = an.fns.get((afn.rel, q))
+        if g is None or nm not in g.globals_decl:
+            continue
+        for n in g.own:
+            if isinstance(n, (ast.Assign, ast.AnnAssign, ast.AugAssign)):
+                tg = n.targets if isinstance(n, ast.Assign) else [n.target]
+                if any(isinstance(t, ast.Name) and t.id == nm for t in tg):
+                    sites.append((g, n))
+            elif isinstance(n, (ast.For, ast.With, ast.NamedExpr, ast.Delete)) and O._binds(n, nm) and not isinstance(n, (ast.For, ast.With)):
+                sites.append((g, None))
+    if len(sites) != 1 or sites[0][1] is None or isinstance(sites[0][1], ast.AugAssign):
+        return False
+    g, n = sites[0]
+    pm = O.parents_of(g)
+    guarded = False
+    for i in g.own:
+        if isinstance(i, ast.If) and any(isinstance(t, ast.Name) and t.id == nm for t in ast.walk(i.test)):
+            if O.inside(pm, n, i.body) or O.inside(pm, n, i.orelse) or ((O.exits(i.body) or O.exits(i.orelse)) and i.end_lineno < n.lineno):
+                guarded = True
+    return guarded and not O.deps(an, g, n.value, at=n)
+
+
+def lazy_singleton(an, x, rebinds):
+    if not rebinds:
+        return False
+    e = rebinds[0]
+    afn = an.fns[e["fn"]]
+    return all(r["fn"] == e["fn"] for r in rebinds) and lazy_name(an, afn, x.split("::", 1)[1])
+
+
+_ROLES = {}
+
+
+def discover(repo=None):
+    """The functions / objects the named contracts are about, found by what they DO (so that a rename does not lose the contract);
+    the historical names are only the fallback when the role is not filled by exactly one candidate."""
+    key = repo or loader.REPO
+    if key in _ROLES:
+        return _ROLES[key]
+    an = analysis(repo)
+    roles = {}
+    roots_cm, roots_perm = {}, {}
+    for e in an.xmuts():
+        fn = an.fns[e["fn"]]
+        recv = O.receiver_of(e["node"], lambda t: ("X:" + e["state"]) in an.L(fn, t, e["node"]))
+        for r in (O.origin_roots(an, fn, recv) if recv is not None else [fn]):
+            (roots_cm if O.is_context_manager(r) else roots_perm)[r.key()] = r
+    cands = [k for k in roots_cm if k[0] == PDF]
+    roles["char-map-patcher"] = cands[0] if len(cands) == 1 else ((PDF, "_patched_build_char_map") if (PDF, "_patched_build_char_map") in an.fns else None)
+    cands = [k for k in roots_perm if k[0] == AESF]
+    roles["permanent-aes-patch"] = cands[0] if len(cands) == 1 else ((AESF, "patch_pypdf_fallback_aes") if (AESF, "patch_pypdf_fallback_aes") in an.fns else None)
+    # the target-list provider of the patcher: the package function whose result the patcher unpacks before patching
+    roles["char-map-targets"] = (PDF, "_get_pypdf_char_map_patcher") if (PDF, "_get_pypdf_char_map_patcher") in an.fns else None
+    cm = an.fns.get(roles["char-map-patcher"]) if roles["char-map-patcher"] else None
+    if cm is not None:
+        prov = []
+        for n in cm.own:
+            if isinstance(n, ast.Assign) and isinstance(n.targets[0], (ast.Tuple, ast.List)) and len(n.targets[0].elts) == 2 and isinstance(n.value, ast.Call):
+                k = an.resolve_call(cm, n.value)
+                if k is not None and k[0] == PDF:
+                    prov.append(k)
+        if len(prov) == 1:
+            roles["char-map-targets"] = prov[0]
+    # the evicting keyed cache of the AES module, its accessor (root of the store's guard chain) and the expansion it memoises
+    st = [x for x in an.written_states() if x.startswith(AESF.split("/")[-1] + "::") and any(ev["removal"] for ev in an.writes(x))]
+    roles["round-key-cache"], roles["round-key-accessor"], roles["key-expansion"] = "_ROUND_KEY_CACHE", (AESF, "_get_round_keys"), "_expand_key"
+    if len(st) == 1:
+        x = st[0]
+        roles["round-key-cache"] = x.split("::", 1)[1]
+        roots, exp = {}, set()
+        for ev in O.content_writes(an, x):
+            if ev["removal"] or ev["key"] is None:
+                continue
+            fn = an.fns[ev["fn"]]
+            for (root, guarded, chain) in O.guard_chains(an, fn, ev["node"], x):
+                roots[root.key()] = root
+            v = ev["value"]
+            if isinstance(v, ast.Name):
+                v = O.single_assignment(fn, v.id)
+            if isinstance(v, ast.Call) and isinstance(v.func, ast.Name):
+                exp.add(v.func.id)
+        if len(roots) == 1:
+            roles["round-key-accessor"] = next(iter(roots))
+        if len(exp) == 1:
+            roles["key-expansion"] = next(iter(exp))
+    _ROLES[key] = roles
+    return roles
+
+
 def policy(repo, tier):
     obls, fns = [], []
     files = [f for f in loader.all_package_files(repo) if "/sharepoint_io/" not in f]
     mods = {f: loader.module(f, repo) for f in files}
     G = lambda oid, ok, why="", loc="", definite=True: obls.append(ground_obligation(oid, ok, why, loc, definite=definite))
-    # H1.shape: the patcher returns only literal (module, name) lists and its wrapper factories only define closures
-    shapes = patch_target_shapes(repo)
-    G("C15/pdf_extractor.py::_get_pypdf_char_map_patcher/policy#returns-literal-target-lists", bool(shapes) and all(1 <= len(s) <= 3 for s in shapes),
-      f"target lists: {shapes}", PDF, definite=False)
-    pdf = mods[PDF]
-    # with-only use of the context manager
-    uses = [n for n in ast.walk(pdf.tree) if isinstance(n, ast.Call) and dotted(n.func) == "_patched_build_char_map"]
-    withs = [w for w in ast.walk(pdf.tree) if isinstance(w, ast.With) and any(it.context_expr in uses for it in w.items)]
-    G("C15/pdf_extractor.py::_patched_build_char_map/policy#used-only-as-with-item", len(uses) >= 1 and len(uses) == len(withs), f"{len(withs)}/{len(uses)} uses are with-items", PDF)
-    # H2: the permanent AES patch installs module-level functions or closures over nothing call-specific
-    aes = mods[AESF]
-    f = aes.functions.get("patch_pypdf_fallback_aes")
-    ok, why = f is not None, []
-    if f is not None:
-        nested = {n.name: n for n in _own(f) if isinstance(n, ast.FunctionDef)}
-        for name, g in nested.items():
-            params = {a.arg for a in g.args.args}
-            free = {x.id for x in ast.walk(g) if isinstance(x, ast.Name) and isinstance(x.ctx, ast.Load)} - params - {a.id for a in ast.walk(g) if isinstance(a, ast.Name) and isinstance(a.ctx, ast.Store)}
-            local_of_outer = {x.id for x in _own(f) if isinstance(x, ast.Name) and isinstance(x.ctx, ast.Store)} | {a.arg for a in f.args.args}
-            captured = free & local_of_outer
-            if captured:
-                ok = False
-                why.append(f"{name} captures per-call state {sorted(captured)}")
-        for n in _own(f):
-            if isinstance(n, ast.Assign) and all(isinstance(t, ast.Attribute) for t in n.targets):
-                v = n.value
-                src = v.id if isinstance(v, ast.Name) else ast.unparse(v)
-                if not (isinstance(v, ast.Name) and (v.id in aes.functions or v.id in nested) or ast.unparse(v) == "fb.CryptAES"):
-                    ok = False
-                    why.append(f"line {n.lineno}: installs {src}")
-        fns.append(dict(aes.fn_info("patch_pypdf_fallback_aes"), obligations=1))
-    G("C15/_pypdf_aes_fallback.py::patch_pypdf_fallback_aes/frame#installs-only-stateless-functions-(idempotent)", ok, "; ".join(why), AESF)
-    # H3 / H5 / H7..H9: module-level state -- inventory, memo soundness, write discipline, ownership, atomicity (contracts/c15_own.py)
-    an = O.Analysis(repo, files)
+    an = analysis(repo)
+    roles = discover(repo)
     rel_of = {an.sid(rel, name): rel for (rel, name) in an.state}
-    written = an.written_states()
-    expected = {"pdf_extractor.py::_FONT_CACHE", "serialization.py::_TYPE_REGISTRY", "_pypdf_aes_fallback.py::_ROUND_KEY_CACHE", "archive_extractor.py::_config"}
-    extra = sorted(set(written) - expected)
-    inv = ground_obligation("C15/package/policy#inventory-of-module-level-mutable-state", not extra and expected <= set(written) and an.converged,
-                            f"mutated module-level objects: {written}" + (f"; NOT in the reviewed inventory: {extra}" if extra else ""), "package")
-    inv["replay_hint"] = {"new_states": [{"state": x, "rel": rel_of.get(x), "writers": sorted({e["fn"][1] for e in an.writes(x)})} for x in extra]}
-    obls.append(inv)
-
-    def hint(x, **kw):
-        return dict({"state": x, "rel": rel_of.get(x), "functions": O.touching_functions(an, x)}, **kw)
+    base = lambda rel: rel.split("/")[-1]
 
     def GH(oid, ok, why, loc, definite=True, h=None):
         o = ground_obligation(oid, ok, why, loc, definite=definite)
@@ -395,238 +511,357 @@ def policy(repo, tier):
             o["replay_hint"] = h
         obls.append(o)
 
+    # H1.shape: the patcher returns only literal (module, name) lists and its wrapper factories only define closures
+    shapes = patch_target_shapes(repo)
+    G("C15/pdf_extractor.py::<char-map-patch-targets>/policy#returns-literal-target-lists", bool(shapes) and all(1 <= len(s) <= 3 for s in shapes),
+      f"target lists: {shapes}", PDF, definite=False)
+    # with-only use of the context manager (all call sites in the package, found through the call graph)
+    cm_key = roles.get("char-map-patcher")
+    sites_cm = O.callers(an).get(cm_key, []) if cm_key else []
+    as_with = 0
+    for (g, call) in sites_cm:
+        pm = O.parents_of(g)
+        par = pm.get(id(call))
+        if isinstance(par, ast.withitem):
+            as_with += 1
+        elif isinstance(par, ast.Assign) and len(par.targets) == 1 and isinstance(par.targets[0], ast.Name):
+            # cm = patcher(); with cm: ...   -- every use of the local is a with-item
+            nm = par.targets[0].id
+            uses = [n for n in g.own if isinstance(n, ast.Name) and n.id == nm and isinstance(n.ctx, ast.Load)]
+            if uses and all(isinstance(pm.get(id(u)), ast.withitem) for u in uses):
+                as_with += 1
+        elif isinstance(par, ast.Call) and isinstance(pm.get(id(par)), ast.withitem) and O.dotted(par.func).endswith("enter_context"):
+            as_with += 1
+    cm_fn = an.fns.get(cm_key) if cm_key else None
+    G("C15/pdf_extractor.py::<char-map-patcher>/policy#used-only-as-with-item",
+      cm_fn is not None and len(sites_cm) >= 1 and as_with == len(sites_cm) and not O.referenced_elsewhere(an, cm_fn),
+      f"{cm_key[1] if cm_key else '?'}: {as_with}/{len(sites_cm)} uses are with-items", PDF, definite=False)
+
+    # ---- foreign objects (other libraries, the interpreter): who mutates them, on whose behalf (root = where the object is named)
+    xm = []
+    for e in an.xmuts():
+        fn = an.fns[e["fn"]]
+        recv = O.receiver_of(e["node"], lambda t: ("X:" + e["state"]) in an.L(fn, t, e["node"]))
+        roots = O.origin_roots(an, fn, recv) if recv is not None else [fn]
+        xm.append((e, fn, roots))
+    perm_key = roles.get("permanent-aes-patch")
+    # H2: the permanent AES patch installs module-level functions or closures over nothing call-specific -- also through helpers
+    ok, why, unknown_origin = perm_key is not None, [], False
+    if perm_key is not None:
+        pfn = an.fns[perm_key]
+        f = pfn.node
+        nested = {n.name: n for n in _own(f) if isinstance(n, ast.FunctionDef)}
+        for name, g in nested.items():
+            params = {a.arg for a in g.args.args}
+            free = {x.id for x in ast.walk(g) if isinstance(x, ast.Name) and isinstance(x.ctx, ast.Load)} - params - {a.id for a in ast.walk(g) if isinstance(a, ast.Name) and isinstance(a.ctx, ast.Store)}
+            captured = free & (pfn.locals - set(nested))
+            captured = {c for c in captured if not _is_import_binding(f, c)}
+            if captured:
+                ok = False
+                why.append(f"{name} captures per-call state {sorted(captured)}")
+        n_inst = 0
+        for (e, fn, roots) in xm:
+            if not any(r.key() == perm_key for r in roots) or e["value"] is None:
+                continue
+            n_inst += 1
+            for (kind, what) in sorted(O.value_origins(an, fn, e["value"])):
+                if kind in ("fn", "class") or (kind == "nested" and what.startswith(perm_key[1] + ".<locals>.")) or (kind == "foreign" and what.split(".")[0] == e["state"].split(".")[0]):
+                    continue
+                if kind == "unknown":
+                    unknown_origin = True
+                ok = False
+                why.append(f"{e['fn'][1]} {e['how'][:60]}: installs {kind} {what}")
+        if n_inst == 0:
+            ok, unknown_origin = False, True
+            why.append("no installation site found")
+        fns.append(dict(mods[perm_key[0]].fn_info(perm_key[1]), obligations=1))
+    GH("C15/_pypdf_aes_fallback.py::<permanent-aes-patch>/frame#installs-only-stateless-functions-(idempotent)", ok,
+       "; ".join(why[:4]) or f"{perm_key[1]}: every installed value is a module-level function, a closure without captured state or a re-export", AESF,
+       definite=not unknown_origin)
+
+    # ---- module-level state: inventory, memo soundness, write discipline, ownership, atomicity (contracts/c15_own.py)
+    written = an.written_states()
+    per_file = {}
     for x in written:
+        per_file.setdefault(x.split("::")[0], []).append(x)
+    sid = {}
+    for fb_, xs in per_file.items():
+        def line_of(x):
+            rel = rel_of.get(x)
+            e = an.state.get((rel, x.split("::", 1)[1])) if rel else None
+            return (getattr(e, "lineno", 10 ** 6), x)
+        for i, x in enumerate(sorted(xs, key=line_of)):
+            sid[x] = f"C15/{fb_}::state#{i}"
+    entry_names = registry_names(an)
+
+    def hint(x, **kw):
+        return dict({"state": x, "rel": rel_of.get(x), "functions": O.touching_functions(an, x)}, **kw)
+
+    unrecognised = []
+    for x in written:
+        S = sid[x]
         cw = sorted(O.content_writes(an, x), key=lambda e: (e["fn"], e["node"].lineno, e["node"].col_offset))
-        keyed = [e for e in cw if e["key"] is not None and e["value"] is not None and not e["removal"]]
-        # bulk publication from a local staging dict: X.update(local) with local[k] = v in the same function -> its keyed stores
-        for e in cw:
-            n = e["node"]
-            if isinstance(n, ast.Call) and isinstance(n.func, ast.Attribute) and n.func.attr == "update" and len(n.args) == 1 and isinstance(n.args[0], ast.Name):
-                fn = an.fns[e["fn"]]
-                for a in fn.own:
-                    if isinstance(a, ast.Assign) and len(a.targets) == 1 and isinstance(a.targets[0], ast.Subscript) and isinstance(a.targets[0].value, ast.Name) \
-                            and a.targets[0].value.id == n.args[0].id and n.args[0].id in fn.locals:
-                        keyed.append(dict(e, node=a, key=a.targets[0].slice, value=a.value, how=f"line {a.lineno}: {ast.unparse(a.targets[0])} staged, published by line {n.lineno}"))
-        keyed.sort(key=lambda e: (e["fn"], e["node"].lineno, e["node"].col_offset))
-        accessors = sorted({e["fn"][1] for e in cw})
-        per_fn = {}
-        for e in keyed:
-            fn = an.fns[e["fn"]]
-            q = e["fn"][1]
-            k = per_fn.get(q, 0)
-            per_fn[q] = k + 1
-            kd = O.deps(an, fn, e["key"])
-            vd = O.deps(an, fn, e["value"])          # incl. module state: a value computed from what the cache holds depends on history
-            ok = vd <= kd
-            h = hint(x, writer=q, accessors=accessors)
-            # H3a: the stored value is computed from nothing but what the key is computed from (parameters and module state)
-            GH(f"C15/{x}/memo#stored-value-depends-only-on-the-key-{q}-{k}", ok,
-               f"{q}: key depends on {sorted(kd)}, stored value depends on {sorted(vd)}" + ("" if ok else " -- a later call with the same key and other arguments gets a stale value"), x, h=h)
-            # H3b: ... and the key DETERMINES each of those inputs (two different inputs never share a key)
-            lost = [p for p in sorted(vd) if not p.startswith("state:") and not O.determines(an, fn, e["key"], p)]
-            GH(f"C15/{x}/memo#key-determines-every-input-of-the-stored-value-{q}-{k}", not lost,
-               f"{q}: key `{ast.unparse(e['key'])[:80]}`" + (f" is not built injectively from {lost}: two calls that differ in {lost} may share a cache entry" if lost else
-                                                              f" is built from {sorted(vd)} by tuples / order-preserving conversions only"), x, definite=False, h=h)
-        # H3c: lookups and stores of one accessor use one key expression
-        for q in accessors:
-            fn = an.fns[[e["fn"] for e in cw if e["fn"][1] == q][0]]
-            keys = set()
-            for n in fn.own:
-                if isinstance(n, ast.Subscript) and not isinstance(n.slice, ast.Slice) and O.is_state_expr(an, fn, n.value, x):
-                    keys.add(ast.unparse(n.slice))
-                elif isinstance(n, ast.Compare) and len(n.ops) == 1 and isinstance(n.ops[0], (ast.In, ast.NotIn)) and O.is_state_expr(an, fn, n.comparators[0], x):
-                    keys.add(ast.unparse(n.left))
-                elif isinstance(n, ast.Call) and isinstance(n.func, ast.Attribute) and n.func.attr in ("get", "setdefault", "pop", "move_to_end") and n.args \
-                        and O.is_state_expr(an, fn, n.func.value, x):
-                    keys.add(ast.unparse(n.args[0]))
-            for e in keyed:
-                if e["fn"][1] == q and "staged" in e["how"]:
-                    keys.add(ast.unparse(e["key"]))
-            if keys:
-                GH(f"C15/{x}/memo#lookup-key-is-the-store-key-{q}", len(keys) == 1, f"{q}: key expressions used on the cache: {sorted(keys)}", x, definite=False,
-                   h=hint(x, writer=q, accessors=accessors))
-        # H7: every content-changing write happens after a miss of the state's own lookup, in its accessor
-        unguarded = []
+        rebinds = [e for e in an.writes(x) if e["rebind"]]
+        # store sites: (root accessor, function in which key / value are written, key, value, chain for lifting, description)
+        sites, opaque = [], []
+        chains_of = {}
         for e in cw:
             if e["removal"]:
                 continue
             fn = an.fns[e["fn"]]
-            if O.miss_guard(an, fn, e["node"], x) is None:
-                unguarded.append(f"{e['fn'][1]}: {e['how']}")
+            gcs = O.guard_chains(an, fn, e["node"], x)
+            chains_of[id(e)] = gcs
+            n = e["node"]
+            bulk = isinstance(n, ast.Call) and isinstance(n.func, ast.Attribute) and n.func.attr == "update" and len(n.args) == 1 and not n.keywords
+            for (root, guarded, chain) in gcs:
+                if bulk:
+                    src = O.dict_sources(an, fn, n.args[0])
+                    if src is None:
+                        opaque.append((root, e))
+                        continue
+                    for (sf, k_, v_, ch2, how) in src:
+                        sites.append((root, sf, k_, v_, tuple(ch2) + tuple(chain), f"{how}, published by {e['fn'][1]} line {n.lineno}", e))
+                elif e["key"] is not None and e["value"] is not None:
+                    sites.append((root, fn, e["key"], e["value"], tuple(chain), e["how"], e))
+                else:
+                    opaque.append((root, e))
+        sites.sort(key=lambda t: (t[0].rel, t[0].node.lineno, t[6]["node"].lineno, getattr(t[2], "lineno", 0), getattr(t[2], "col_offset", 0)))
+        accessors = sorted({t[0].q for t in sites} | {r.q for (r, _e) in opaque} | {e["fn"][1] for e in cw})
+        for k, (root, sf, key, val, chain, how, e) in enumerate(sites):
+            at_ = e["node"] if sf.key() == e["fn"] else None        # the store statement: only definitions that reach it count
+            kd_h, vd_h = O.deps(an, sf, key, at=at_), O.deps(an, sf, val, at=at_)
+            kd, vd = O.lift_deps(an, sf, kd_h, chain), O.lift_deps(an, sf, vd_h, chain)
+            ok = vd <= kd
+            h = hint(x, writer=root.q, accessors=accessors)
+            # H3a: the stored value is computed from nothing but what the key is computed from (parameters and module state)
+            GH(f"{S}/memo#stored-value-depends-only-on-the-key-site{k}", ok,
+               f"{x} in {root.q} ({how}): key depends on {sorted(kd)}, stored value depends on {sorted(vd)}" +
+               ("" if ok else " -- a later call with the same key and other arguments gets a stale value"), x, definite=False, h=h)
+            # H3b: ... and the key DETERMINES each of those inputs (two different inputs never share a key)
+            lost = []
+            for p in sorted(vd_h):
+                if p.startswith("state:") or O.determines(an, sf, key, p):
+                    continue
+                if not O.lift_deps(an, sf, {p}, chain) and chain:
+                    continue                                   # always called with a constant there
+                lost.append(p)
+            GH(f"{S}/memo#key-determines-every-input-of-the-stored-value-site{k}", not lost,
+               f"{x} in {root.q}: key `{ast.unparse(key)[:80]}`" + (f" is not built injectively from {lost}: two calls that differ in {lost} may share a cache entry" if lost else
+                                                                   f" is built from {sorted(vd_h)} by tuples / order-preserving conversions only"), x, definite=False, h=h)
+        for k, (root, e) in enumerate(opaque):
+            GH(f"{S}/memo#publication-is-a-recognised-keyed-store-{k}", False, f"{x} in {root.q}: {e['how']} -- what is published is not a recognised dict expression", x,
+               definite=False, h=hint(x, writer=root.q, accessors=accessors))
+        # H3c: lookups and stores of one accessor use one key expression (a helper's store key is read at its call site)
+        roots = sorted({t[0].key(): t[0] for t in sites}.values(), key=lambda f_: (f_.rel, f_.node.lineno))
+        for k, root in enumerate(roots):
+            keys = set()
+            for n in root.own:
+                if isinstance(n, ast.Subscript) and not isinstance(n.slice, ast.Slice) and O.is_state_expr(an, root, n.value, x) and isinstance(n.ctx, ast.Load):
+                    keys.add(ast.unparse(n.slice))
+                elif isinstance(n, ast.Compare) and len(n.ops) == 1 and isinstance(n.ops[0], (ast.In, ast.NotIn)) and O.is_state_expr(an, root, n.comparators[0], x):
+                    keys.add(ast.unparse(n.left))
+                elif isinstance(n, ast.Call) and isinstance(n.func, ast.Attribute) and n.func.attr in ("get", "pop", "move_to_end") and n.args \
+                        and O.is_state_expr(an, root, n.func.value, x):
+                    keys.add(ast.unparse(n.args[0]))
+            stores = set()
+            for (r2, sf, key, val, chain, how, e) in sites:
+                if r2.key() == root.key() and "published by" not in how:
+                    stores.add(O.lift_expr_text(an, sf, key, chain))
+            norm = lambda t: O.resolve_alias_text(root, t)
+            both = {norm(t) for t in keys} | {norm(t) for t in stores}
+            if keys and stores:
+                GH(f"{S}/memo#lookup-key-is-the-store-key-{k}", len(both) == 1, f"{x} in {root.q}: lookups use {sorted(keys)}, stores use {sorted(stores)}", x, definite=False,
+                   h=hint(x, writer=root.q, accessors=accessors))
+        # H7: every content-changing write happens after a miss of the state's own lookup -- in its function or at every call site of it
+        unguarded = []
+        for e in cw:
+            if e["removal"]:
+                continue
+            for (root, guarded, chain) in chains_of.get(id(e), []):
+                if not guarded:
+                    unguarded.append(f"{e['fn'][1]}: {e['how']}" + (f" (reached from {root.q} without a lookup)" if chain else ""))
         if cw:
-            GH(f"C15/{x}/frame#written-only-after-a-miss-of-its-own-lookup", not unguarded,
-               "; ".join(unguarded) or f"{len([e for e in cw if not e['removal']])} write(s), each behind an `if <lookup hit>: return`; accessor(s): {accessors}", x,
+            GH(f"{S}/frame#written-only-after-a-miss-of-its-own-lookup", not unguarded,
+               "; ".join(sorted(set(unguarded))[:4]) or f"{x}: {len([e for e in cw if not e['removal']])} write(s), each behind a miss of the lookup; accessor(s): {accessors}", x,
                definite=False, h=hint(x, accessors=accessors))
         # H8: a reader that takes "non-empty" for "completely populated" -> every write sits behind that guard and stores nothing call-specific
         eg = O.emptiness_guards(an, x)
         if eg:
             bad = []
             for e in cw:
-                fn = an.fns[e["fn"]]
                 okw = False
-                for (gf, g, form) in eg:
-                    if gf is not fn:
-                        continue
-                    pm = O.parents_of(fn)
-                    if form == "nonempty-return" and e["node"].lineno > g.end_lineno:
-                        okw = True
-                    if form == "empty-populate" and O.inside(pm, e["node"], g.body):
-                        okw = True
+                for (root, guarded, chain) in chains_of.get(id(e), [(an.fns[e["fn"]], False, [])]):
+                    node_in_root = chain[-1][1] if chain else e["node"]
+                    for (gf, g, form) in eg:
+                        if gf.key() != root.key():
+                            continue
+                        pm = O.parents_of(root)
+                        if form == "nonempty-return" and node_in_root.lineno > g.end_lineno:
+                            okw = True
+                        if form == "empty-populate" and O.inside(pm, node_in_root, g.body):
+                            okw = True
+                        if form == "populate-in-else" and O.inside(pm, node_in_root, g.orelse):
+                            okw = True
                 if not okw:
                     bad.append(f"{e['fn'][1]}: {e['how']} is outside the populate-once guard of {sorted({gf.q for (gf, _g, _f) in eg})}")
-                    continue
-                for part in ("key", "value"):
-                    if e[part] is not None:
-                        d = {p for p in O.deps(an, fn, e[part], exclude_state=(x,)) if not p.startswith("state:")}
-                        if d:
-                            bad.append(f"{e['fn'][1]}: {e['how']} stores something that depends on the call ({sorted(d)})")
-            GH(f"C15/{x}/frame#non-empty-means-completely-populated", not bad,
-               "; ".join(bad) or f"guard in {sorted({gf.q for (gf, _g, _f) in eg})}; all {len(cw)} write(s) behind it, none depends on a parameter", x,
-               h=hint(x, accessors=accessors))
+            for (root, sf, key, val, chain, how, e) in sites:
+                for part, ex_ in (("key", key), ("value", val)):
+                    d = {p for p in O.lift_deps(an, sf, O.deps(an, sf, ex_, exclude_state=(x,)), chain) if not p.startswith("state:")}
+                    if d:
+                        bad.append(f"{root.q}: {how} stores a {part} that depends on the call ({sorted(d)})")
+            GH(f"{S}/frame#non-empty-means-completely-populated", not bad,
+               "; ".join(sorted(set(bad))[:4]) or f"{x}: guard in {sorted({gf.q for (gf, _g, _f) in eg})}; all {len(cw)} write(s) behind it, none depends on a parameter", x,
+               definite=False, h=hint(x, accessors=accessors))
             # H9b (schedules): the population is not observable half-done by another thread
-            direct = [e for e in cw if not e["removal"] and not O.locked(an.fns[e["fn"]], e["node"])]
+            direct = [e for e in cw if not e["removal"] and not O.site_locked(an, an.fns[e["fn"]], e["node"])]
             stepwise = [e for e in direct if an.fns[e["fn"]].loops.get(id(e["node"]))] or (direct if len(direct) > 1 else [])
-            GH(f"C15/{x}/schedule#populate-once-state-is-published-atomically", not stepwise,
+            GH(f"{S}/schedule#populate-once-state-is-published-atomically", not stepwise,
                "; ".join(f"{e['fn'][1]}: {e['how']} fills the shared object step by step: a thread that tests it meanwhile takes the partial content for complete" for e in stepwise[:3])
-               or "one write statement outside loops (or under a lock)", x, definite=False, h=hint(x, accessors=accessors))
+               or f"{x}: one write statement outside loops (or under a lock)", x, definite=False, h=hint(x, accessors=accessors))
         # H9a (schedules): where entries can be evicted, operations that need their key present tolerate a concurrent eviction
         if any(e["removal"] for e in an.writes(x)):
-            acts = O.keyed_acts(an, x)
-            per = {}
-            for (fn, n, text) in acts:
-                k = per.get(fn.q, 0)
-                per[fn.q] = k + 1
+            for k, (fn, n, text) in enumerate(O.keyed_acts(an, x)):
                 ok = O.tolerant_or_locked(fn, n)
-                GH(f"C15/{x}/schedule#keyed-act-tolerates-a-concurrent-eviction-{fn.q}-{k}", ok,
-                   f"{fn.q} line {n.lineno}: `{text}` " + ("is inside try/except KeyError or a lock" if ok else
-                                                          "raises KeyError when another thread evicts the entry between the lookup and this statement"), x,
+                GH(f"{S}/schedule#keyed-act-tolerates-a-concurrent-eviction-act{k}", ok,
+                   f"{x}: {fn.q} line {n.lineno}: `{text}` " + ("is inside try/except KeyError or a lock" if ok else
+                                                                  "raises KeyError when another thread evicts the entry between the lookup and this statement"), x,
                    definite=False, h=hint(x, accessors=accessors, act=fn.q))
         # H10: ownership -- objects stored in / handed out by the state are never mutated afterwards
         vm = an.vmuts(x)
-        GH(f"C15/{x}/ownership#objects-handed-out-by-the-cache-are-never-mutated", not vm,
-           "; ".join(f"{e['fn'][1]}: {e['how']}" for e in vm[:4]) or f"handed out through {[k[1] for k, f in sorted(an.fns.items()) if ('V:' + x) in f.ret or ('S:' + x) in f.ret]}; no mutation site reaches them",
-           x, definite=any(e["definite"] for e in vm), h=hint(x, accessors=accessors))
+        GH(f"{S}/ownership#objects-handed-out-by-the-cache-are-never-mutated", not vm,
+           "; ".join(f"{e['fn'][1]}: {e['how']}" for e in vm[:4]) or f"{x}: handed out through {[k_[1] for k_, f_ in sorted(an.fns.items()) if ('V:' + x) in f_.ret or ('S:' + x) in f_.ret]}; no mutation site reaches them",
+           x, definite=any(O.certain_mutation(an, e) for e in vm), h=hint(x, accessors=accessors))
+        # H4: a module-level name is rebound only by configuration functions -- functions no extraction code path reaches
+        if rebinds:
+            badr = []
+            lazy = lazy_singleton(an, x, rebinds)
+            for e in ([] if lazy else rebinds):
+                for ch in O.top_chains(an, an.fns[e["fn"]]):
+                    top = ch[-1]
+                    if O.is_generator(top) or top.node.name in entry_names or O.referenced_elsewhere(an, top):
+                        badr.append(f"{e['fn'][1]} ({e['how']}) is reached from {top.q}")
+            GH(f"{S}/frame#rebound-only-by-configuration-functions", not badr, "; ".join(sorted(set(badr))[:4]) or
+               (f"{x}: bound once, behind a test of its own emptiness, to a value that depends on nothing call-specific" if lazy else
+                f"{x}: rebound by {sorted({e['fn'][1] for e in rebinds})}, which no extraction path calls"),
+               x, definite=False, h={"context_managers": [[e["fn"][0], e["fn"][1]] for e in rebinds if O.is_context_manager(an.fns[e["fn"]])]})
+        # H5: what kind of state is this?  a guarded keyed cache / registry, or configuration -- anything else is not understood
+        kind_ok = (bool(sites) and not opaque and all(g for e in cw if not e["removal"] for (_r, g, _c) in chains_of.get(id(e), []))) or (bool(rebinds) and not cw) \
+            or (not cw and not rebinds)                       # only reordered / evicted: nothing to understand
+        if not kind_ok:
+            unrecognised.append(x)
+    inv = ground_obligation("C15/package/policy#inventory-of-module-level-mutable-state", not unrecognised and bool(written) and an.converged,
+                            f"{len(written)} mutated module-level objects, each a guarded keyed cache / registry or a configuration object: {written}" +
+                            (f"; NOT of a recognised kind: {unrecognised}" if unrecognised else ""), "package", definite=False)
+    inv["replay_hint"] = {"new_states": [{"state": x, "rel": rel_of.get(x), "writers": sorted({e["fn"][1] for e in an.writes(x)})} for x in unrecognised]}
+    obls.append(inv)
     # H10 for module-level tables nobody writes and for memoised results (lru_cache): never mutated through an alias either
     other = [e for e in an.events if e["kind"] == "vmut" and e["state"] not in written]
     GH("C15/package/ownership#module-level-tables-and-memoised-results-are-never-mutated-through-aliases", not other,
        "; ".join(f"{e['state']} in {e['fn'][1]}: {e['how']}" for e in other[:4]) or f"{len(an.state)} module- / class-level mutable objects, {len(an.cached_fns)} memoised functions", "package",
-       definite=any(e["definite"] for e in other), h={"rel": rel_of.get(other[0]["state"]) if other else None})
-    # lru_cache functions: pure functions of their parameters, apart from the listed read-only globals
-    for rel, m in mods.items():
-        for q, fn in m.functions.items():
-            if any("lru_cache" in ast.unparse(d) for d in fn.decorator_list):
-                params = {a.arg for a in fn.args.args}
-                stores = [x for x in _own(fn) if isinstance(x, (ast.Global, ast.Nonlocal))]
-                attr_stores = [x for x in _own(fn) if isinstance(x, (ast.Attribute, ast.Subscript)) and isinstance(x.ctx, ast.Store)]
-                afn = an.fns.get((rel, q))
-                reads_config = sorted(set(afn.reads) & set(written)) if afn is not None else ["?"]
-                G(f"C15/{rel.split('/')[-1]}::{q}/memo#lru_cache-wrapped-function-has-no-side-effect-and-reads-no-mutable-config",
-                  not stores and not attr_stores and not reads_config, f"globals={len(stores)} stores={len(attr_stores)} config-reads={len(reads_config)}", rel)
-    # H5b: module-level names rebound from inside functions (`global X`): flags, counters, configuration
+       definite=any(O.certain_mutation(an, e) for e in other), h={"rel": rel_of.get(other[0]["state"]) if other else None})
+    # memoised functions (lru_cache / cache): pure functions of their parameters that read no mutable module state (transitively)
+    per_file_m = {}
+    for key in sorted(an.cached_fns, key=lambda k_: (k_[0], an.fns[k_].node.lineno)):
+        per_file_m.setdefault(key[0], []).append(key)
+    for rel, keys in per_file_m.items():
+        for i, key in enumerate(keys):
+            afn = an.fns[key]
+            stores = [n for n in afn.own if isinstance(n, (ast.Global, ast.Nonlocal))]
+            attr_stores = [n for n in afn.own if isinstance(n, (ast.Attribute, ast.Subscript)) and isinstance(n.ctx, ast.Store)
+                           and not (isinstance(O.root_name(n), str) and O.root_name(n) in afn.locals and O.root_name(n) not in afn.all_params)]
+            reads_state = sorted(set(afn.reads) & set(written))
+            G(f"C15/{base(rel)}::memoised#{i}/memo#memoised-function-has-no-side-effect-and-reads-no-mutable-state",
+              not stores and not attr_stores and not reads_state and not afn.mut,
+              f"{key[1]}: globals={len(stores)} stores={len(attr_stores)} mutated-params={sorted(afn.mut)} state-reads={reads_state}", rel, definite=False)
+    # H5b: module-level names rebound from inside functions (`global X`) that are NOT recognised state, and reflective access
     rebinders = []
-    for rel, m in mods.items():
-        for q, fn in m.functions.items():
-            for n in _own(fn):
-                if isinstance(n, ast.Global):
-                    for nm in n.names:
-                        if any(isinstance(x, ast.Name) and x.id == nm and isinstance(x.ctx, ast.Store) for x in _own(fn)):
-                            rebinders.append(f"{rel.split('/')[-1]}::{q} rebinds global {nm}")
-    for rel, m in mods.items():
-        for q, fn in m.functions.items():
-            for n in _own(fn):
-                if isinstance(n, ast.Call) and dotted(n.func) in ("globals", "vars", "sys.modules.__getitem__", "importlib.import_module") and \
-                        (dotted(n.func) == "globals" or (dotted(n.func) == "vars" and not n.args)):
-                    rebinders.append(f"{rel.split('/')[-1]}::{q} reaches module state through {dotted(n.func)}()")
-                if isinstance(n, ast.Subscript) and dotted(n.value) == "sys.modules":
-                    rebinders.append(f"{rel.split('/')[-1]}::{q} reaches module state through sys.modules[...]")
-    allowed = {"archive_extractor.py::configure_archive_extraction rebinds global _config"}
-    extra_g = sorted(set(rebinders) - allowed)
-    rb = ground_obligation("C15/package/policy#no-module-level-name-is-rebound-by-extraction-code", not extra_g,
-                           "; ".join(extra_g) or f"{len(rebinders)} rebinding site(s), all in the reviewed list", "package")
-    rb["replay_hint"] = {"context_managers": [[rel, q] for rel, m in mods.items() for q, fn in m.functions.items()
-                                              if any("contextmanager" in ast.unparse(d) for d in fn.decorator_list)
-                                              and f"{rel.split('/')[-1]}::{q}" in {r.split(" rebinds ")[0] for r in extra_g}]}
+    for (rel, q), afn in sorted(an.fns.items()):
+        for nm in sorted(afn.globals_decl):
+            if any(isinstance(n, ast.Name) and n.id == nm and isinstance(n.ctx, (ast.Store, ast.Del)) for n in afn.own):
+                if an.sid(rel, nm) in written:
+                    continue                                       # a state object: its own obligations (H4) decide
+                if lazy_name(an, afn, nm):
+                    continue                                       # bound once behind `if NAME is None`, to something call-independent
+                tops = [ch[-1] for ch in O.top_chains(an, afn)]
+                if any(O.is_generator(t) or t.node.name in entry_names or O.referenced_elsewhere(an, t) for t in tops):
+                    rebinders.append((rel, q, f"{base(rel)}::{q} rebinds global {nm} and is reached from {sorted({t.q for t in tops})[:3]}"))
+        for n in afn.own:
+            if isinstance(n, ast.Call) and (dotted(n.func) == "globals" or (dotted(n.func) == "vars" and not n.args)):
+                rebinders.append((rel, q, f"{base(rel)}::{q} reaches module state through {dotted(n.func)}()"))
+            if isinstance(n, ast.Subscript) and dotted(n.value) == "sys.modules":
+                rebinders.append((rel, q, f"{base(rel)}::{q} reaches module state through sys.modules[...]"))
+    rb = ground_obligation("C15/package/policy#no-module-level-name-is-rebound-by-extraction-code", not rebinders,
+                           "; ".join(r[2] for r in rebinders[:4]) or "no function that extraction code reaches rebinds a module-level name", "package", definite=False)
+    rb["replay_hint"] = {"context_managers": [[rel, q] for (rel, q, _w) in rebinders if O.is_context_manager(an.fns[(rel, q)])]}
     obls.append(rb)
     # H5c: a mutable default argument that the function mutates is module-level state in disguise
     md = []
     for (rel, q), afn in sorted(an.fns.items()):
         a = afn.node.args
         pos = a.posonlyargs + a.args
-        pairs = list(zip(pos[len(pos) - len(a.defaults):], a.defaults)) + [(k, d) for k, d in zip(a.kwonlyargs, a.kw_defaults) if d is not None]
+        pairs = list(zip(pos[len(pos) - len(a.defaults):], a.defaults)) + [(k_, d) for k_, d in zip(a.kwonlyargs, a.kw_defaults) if d is not None]
         for (arg, d) in pairs:
             if O.mutable_expr(d) and arg.arg in afn.mut:
-                md.append(f"{rel.split('/')[-1]}::{q}({arg.arg}={ast.unparse(d)[:20]}) is mutated by the function")
-    G("C15/package/policy#no-mutable-default-argument-is-mutated", not md, "; ".join(md[:5]) or "no function mutates a parameter that has a mutable default", "package")
+                md.append(f"{base(rel)}::{q}({arg.arg}={ast.unparse(d)[:20]}) is mutated by the function")
+    G("C15/package/policy#no-mutable-default-argument-is-mutated", not md, "; ".join(md[:5]) or "no function mutates a parameter that has a mutable default", "package",
+      definite=False)
     # H11: interpreter- / library-wide settings (the state behind os, sys, locale, warnings, logging, csv, mimetypes, PIL, pypdf ...)
-    sites = []
-    for rel, m in mods.items():
+    sites_s = []
+    for (rel, q), afn in sorted(an.fns.items()):
         imp = an.imports[rel]
-        for q, fn in m.functions.items():
-            afn = an.fns.get((rel, q))
-            loc_names = afn.locals if afn is not None else set()
 
-            def origin(e):
-                """dotted origin of an attribute chain whose root is an imported name ('' otherwise)"""
-                d = dotted(e)
-                if not d:
-                    return ""
-                root, _, rest = d.partition(".")
-                if root in loc_names or root not in imp:
-                    return ""
-                return imp[root] + ("." + rest if rest else "")
-            for n in _own(fn):
-                if isinstance(n, ast.Call):
-                    o = origin(n.func)
-                    if o in SETTERS and (o not in GETTER_WITHOUT_ARGS or n.args or n.keywords):
-                        sites.append((f"{rel.split('/')[-1]}::{q}", f"line {n.lineno}: {o}(...)"))
-                    if dotted(n.func) in ("setattr", "delattr") and n.args:
-                        o = origin(n.args[0])
-                        if o and not o.startswith("sharepoint2text"):
-                            sites.append((f"{rel.split('/')[-1]}::{q}", f"line {n.lineno}: setattr on {o}"))
-                    if isinstance(n.func, ast.Attribute) and n.func.attr in O.DEF_MUTATORS:
-                        o = origin(n.func.value)
-                        if o in ("os.environ", "sys.path", "sys.modules", "sys.meta_path", "warnings.filters", "mimetypes.types_map", "sys.argv"):
-                            sites.append((f"{rel.split('/')[-1]}::{q}", f"line {n.lineno}: {o}.{n.func.attr}(...)"))
-                elif isinstance(n, (ast.Assign, ast.AugAssign, ast.AnnAssign, ast.Delete)):
-                    tgts = n.targets if isinstance(n, (ast.Assign, ast.Delete)) else [n.target]
-                    for t in tgts:
-                        for e in (t.elts if isinstance(t, (ast.Tuple, ast.List)) else [t]):
-                            if isinstance(e, (ast.Attribute, ast.Subscript)):
-                                o = origin(e.value)
-                                if o and not o.startswith("sharepoint2text"):
-                                    sites.append((f"{rel.split('/')[-1]}::{q}", f"line {n.lineno}: {ast.unparse(e)[:60]} assigned ({o} is not the package's own state)"))
-    # ... also through aliases / containers / helper returns (label X: of the ownership analysis)
-    for e in an.xmuts():
-        sites.append((f"{e['fn'][0].split('/')[-1]}::{e['fn'][1]}", f"{e['how']} ({e['state']} is not the package's own state)"))
-    reviewed = {"_pypdf_aes_fallback.py::patch_pypdf_fallback_aes",          # the one documented permanent change (H2)
-                "pdf_extractor.py::_patched_build_char_map"}                 # the temporary patch: restored on every exit (H1), serialised (H12)
-    extra_s = sorted({f"{w} {what}" for (w, what) in sites if w not in reviewed})
-    st_o = ground_obligation("C15/package/policy#no-interpreter-or-third-party-setting-is-changed-by-extraction-code", not extra_s,
-                             "; ".join(extra_s[:5]) or f"{len(sites)} site(s), all in {sorted(reviewed)}; setters checked: {len(SETTERS)}", "package", definite=False)
-    st_o["replay_hint"] = {"context_managers": [[rel, q] for rel, m in mods.items() for q, fn in m.functions.items()
-                                                if any("contextmanager" in ast.unparse(d) for d in fn.decorator_list)]}
+        def origin(e, afn=afn, imp=imp):
+            """dotted origin of an attribute chain whose root is an imported name ('' otherwise)"""
+            d = dotted(e)
+            if not d:
+                return ""
+            root, _, rest = d.partition(".")
+            if root in afn.locals or root not in imp:
+                return ""
+            return imp[root] + ("." + rest if rest else "")
+        for n in afn.own:
+            if isinstance(n, ast.Call):
+                o = origin(n.func)
+                if o in SETTERS and (o not in GETTER_WITHOUT_ARGS or n.args or n.keywords):
+                    sites_s.append(f"{base(rel)}::{q} line {n.lineno}: {o}(...)")
+                if isinstance(n.func, ast.Attribute) and n.func.attr in O.DEF_MUTATORS:
+                    o = origin(n.func.value)
+                    if o in ("os.environ", "sys.path", "sys.modules", "sys.meta_path", "warnings.filters", "mimetypes.types_map", "sys.argv"):
+                        sites_s.append(f"{base(rel)}::{q} line {n.lineno}: {o}.{n.func.attr}(...)")
+    # ... and every definite mutation of an object of another library, directly / through aliases / containers / helpers (label X:);
+    # covered: the sites that act for the two functions under their own contract (H1: restored on every exit; H2: permanent, stateless)
+    covered = {k_ for k_ in (cm_key, perm_key) if k_}
+    n_cov = 0
+    for (e, fn, roots) in xm:
+        if roots and all(r.key() in covered for r in roots):
+            n_cov += 1
+            continue
+        sites_s.append(f"{base(e['fn'][0])}::{e['fn'][1]} {e['how']} ({e['state']} is not the package's own state; acting for {sorted({r.q for r in roots})})")
+    st_o = ground_obligation("C15/package/policy#no-interpreter-or-third-party-setting-is-changed-by-extraction-code", not sites_s,
+                             "; ".join(sorted(set(sites_s))[:5]) or f"{n_cov} mutation site(s) of foreign objects, all acting for the functions under contract "
+                             f"{sorted(k_[1] for k_ in covered)}; setters checked: {len(SETTERS)}", "package", definite=False)
+    st_o["replay_hint"] = {"context_managers": [[rel, q] for (rel, q), afn in sorted(an.fns.items()) if O.is_context_manager(afn)]}
     obls.append(st_o)
     # H12 (schedules): a temporary patch of a shared object (save / set / restore) is a critical section
-    by_fn = {}
-    for e in an.xmuts():
-        w = f"{e['fn'][0].split('/')[-1]}::{e['fn'][1]}"
-        if w != "_pypdf_aes_fallback.py::patch_pypdf_fallback_aes":
-            by_fn.setdefault(e["fn"], []).append(e)
-    for key, evs in sorted(by_fn.items()):
-        afn = an.fns[key]
-        open_ = [e for e in evs if not O.locked(afn, e["node"])]
-        is_cm = any("contextmanager" in ast.unparse(d) for d in afn.node.decorator_list)
-        o = ground_obligation(f"C15/{key[0].split('/')[-1]}::{key[1]}/schedule#temporary-patch-of-shared-objects-is-serialised", not open_,
-                              "; ".join(sorted({f"{e['how']} on {e['state']}" for e in open_})[:4]) + (" -- not under a lock: two threads interleaving save / set / restore "
-                                                                                                      "leave the other thread's wrapper installed" if open_ else "all under a lock"),
-                              key[0], definite=False)
-        o["replay_hint"] = {"rel": key[0], "patchers": [[key[0], key[1]]] if is_cm else [], "functions": [key[1].split(".")[-1]]}
-        obls.append(o)
-    # H4: _config
-    arch = mods[ARCH]
-    writers = sorted({q for q, fn in arch.functions.items() if any(isinstance(n, ast.Global) and "_config" in n.names for n in _own(fn))}
-                     | {e["fn"][1] for e in an.writes("archive_extractor.py::_config")})
-    G("C15/archive_extractor.py::_config/frame#written-only-by-configure_archive_extraction", writers == ["configure_archive_extraction"], str(writers), ARCH)
+    by_root = {}
+    for (e, fn, roots) in xm:
+        for r in roots:
+            if r.key() != perm_key:
+                by_root.setdefault(r.key(), []).append((e, fn))
+    per_file_p = {}
+    for key in sorted(by_root, key=lambda k_: (k_[0], an.fns[k_].node.lineno)):
+        per_file_p.setdefault(key[0], []).append(key)
+    for rel, keys in per_file_p.items():
+        for i, key in enumerate(keys):
+            root = an.fns[key]
+            open_ = [(e, fn) for (e, fn) in by_root[key] if not O.site_locked(an, fn, e["node"], stop=(key,))]
+            helpers = sorted({fn.node.name for (_e, fn) in by_root[key]} | {root.node.name})
+            o = ground_obligation(f"C15/{base(rel)}::patcher#{i}/schedule#temporary-patch-of-shared-objects-is-serialised", not open_,
+                                  f"{root.q}: " + "; ".join(sorted({f"{e['how']} on {e['state']}" for (e, _f) in open_})[:4]) +
+                                  (" -- not under a lock: two threads interleaving save / set / restore leave the other thread's wrapper installed" if open_ else "all under a lock"),
+                                  rel, definite=False)
+            o["replay_hint"] = {"rel": rel, "patchers": [[rel, key[1]]] if O.is_context_manager(root) else [], "functions": helpers}
+            obls.append(o)
     # H6: handles closed on all paths
     bad, n_sites = [], 0
     OPENERS = ("olefile.OleFileIO", "OleFileIO", "zipfile.ZipFile", "tarfile.open", "SevenZipFile", "tempfile.TemporaryDirectory", "open", "load_workbook",
@@ -681,7 +916,10 @@ def policy(repo, tier):
                                 for fb in nxt.finalbody for r in ast.walk(fb)) if tgt else False
                             if not ok_:
                                 bad.append(f"{rel}:{c.lineno} {dotted(c.func)}: the temporary object is not removed by a `finally` that starts right after its creation")
-    G("C15/package/typestate#every-handle-opened-by-own-code-is-closed-on-all-paths", not bad and n_sites >= 20, "; ".join(bad[:6]) or f"{n_sites} open sites", "package")
+    # recognised release shapes only (with-item, close() in finally / handler, owner object with close / __exit__, rmtree in the finally right
+    # after mkdtemp): an unrecognised shape is `unknown` -- the native probes (damaged archives, abandoned generators) decide
+    G("C15/package/typestate#every-handle-opened-by-own-code-is-closed-on-all-paths", not bad and n_sites >= 10, "; ".join(bad[:6]) or f"{n_sites} open sites", "package",
+      definite=False)
     return {"obligations": obls, "functions": fns}
 
 
@@ -711,7 +949,8 @@ def validate_histories(repo, tier):
 
 def known_findings(kf, violations, repo, tier):
     """Recorded genuine defects (schedule half).  A recorded finding covers its obligation only while the native replayer still
-    reproduces it *at the recorded place*: the preemption point of the reproduced schedule must lie in the recorded function."""
+    reproduces it *at the recorded place*: for a patcher schedule the reproduced target must be the context manager acting as the
+    patch root of that obligation; for a cache schedule the preemption point must lie in a function the obligation's hint names."""
     import json
     vio = {v["id"]: v for v in violations}
     out = []
@@ -724,13 +963,30 @@ def known_findings(kf, violations, repo, tier):
                 rec = json.load(open(rp["path"]))
             except Exception:  # noqa
                 rec = {}
+            w = f.get("witness") or {}
+            hint_ = rec.get("hint") or {}
             where = str((rec.get("inputs") or {}).get("preemption_point") or "")
-            want = (f.get("witness") or {}).get("preempt_in")
-            still = bool(want) and where.endswith(" in " + want)
+            if w.get("kind") == "patcher-schedule":
+                still = rec.get("found_by") == "patcher schedule" and [str(rec.get("target", "")).split("::")[0], str(rec.get("target", "")).split("::")[-1]] in (hint_.get("patchers") or [])
+            else:
+                fnames = set(hint_.get("functions") or []) | ({w["preempt_in"]} if w.get("preempt_in") else set())
+                still = any(where.endswith(" in " + n) for n in fnames)
             detail = str((rec.get("inputs") or {}).get("schedule") or "")[:300] + " -> " + str(rec.get("observed"))[:120]
         out.append({"finding": f["id"], "still_fails": still, "line": f"{f['id']}: {f['what']}", "covers": [f["obligation"]] if still else [],
                     "witness_replay": detail})
     return out
+
+
+def post_report(c, rep):
+    """Obligation ids name the ROLE of the function under contract, not its (private) name: a rename keeps the ids."""
+    role = ROLE_OF.get(c.target)
+    if not role:
+        return
+    rel, q = c.target.split("::", 1)
+    old, new = f"{rel.split('/')[-1]}::{q}/", f"{rel.split('/')[-1]}::{role}/"
+    for o in rep.obligations:
+        if old in o["id"]:
+            o["id"] = o["id"].replace(old, new)
 
 
 EXTRA = [policy, validate_histories]
